@@ -244,6 +244,18 @@ class Mir:
         self.locals = raw["locals"]
         self.arg_count = raw["arg_count"]
         self.n = len(self.blocks)
+        # shadowed variables (`let old_idx = if .. { .. } else { old_idx };`) are different locals with one name: terms
+        # are rendered by name, so later namesakes get a distinguishing suffix (the first keeps the plain name)
+        if not raw.get("_names_disambiguated"):
+            seen = {}
+            for l, decl in enumerate(self.locals):
+                nm = decl.get("name")
+                if not nm:
+                    continue
+                seen[nm] = seen.get(nm, 0) + 1
+                if seen[nm] > 1:
+                    decl["name"] = "%s'%d" % (nm, seen[nm])
+            raw["_names_disambiguated"] = True
         self._succ = None
         self._pred = None
         self._dom = None
@@ -505,6 +517,38 @@ class Mir:
                 return ("fnptr", op["fn"]["path"])
             return ("const", op.get("val"), op.get("ty"))
         return ("unknown", k)
+
+
+def lift_upvars(prog, cf, term):
+    """A term of a closure body with every captured variable (`(*_1).N`, a slot of the closure environment) replaced by
+    the operand the closure was built with in its parent: (parent fn, lifted term, replaced anything?)."""
+    parent = prog.fn(cf.raw.get("closure_of") or "")
+    if parent is None or not parent.mir:
+        return None, term, False
+    pm = parent.mir
+    ops = None
+    for b in pm.blocks:
+        for s_ in b["stmts"]:
+            if s_["k"] == "assign" and s_["rv"]["k"] == "aggregate" and s_["rv"].get("ak") == "closure" and s_["rv"].get("closure") == cf.path:
+                ops = s_["rv"]["ops"]
+    if ops is None:
+        return parent, term, False
+    hit = [False]
+
+    def lift(t):
+        if isinstance(t, tuple) and t and t[0] == "field" and str(t[2]).isdigit():
+            base = t[1]
+            while isinstance(base, tuple) and base and base[0] in ("ref", "deref"):
+                base = base[1]
+            if isinstance(base, tuple) and base and base[0] == "local" and base[2] == 1 and int(t[2]) < len(ops):
+                hit[0] = True
+                return pm.resolve_operand(ops[int(t[2])])
+        if isinstance(t, tuple):
+            return tuple(lift(x) if isinstance(x, (tuple, list)) else x for x in t)
+        if isinstance(t, list):
+            return [lift(x) for x in t]
+        return t
+    return parent, lift(term), hit[0]
 
 
 def term_str(t, depth=0):
